@@ -305,8 +305,10 @@ func idOf(r *reqmodel.Request) string {
 	return ""
 }
 
-// knownClass decides the known-finding class from the input alone (placeholders, not run-time tags).
-func knownClass(lines []string) string {
+// chainShape names the shape of a multi-line chain from the input alone (placeholders, not run-time
+// tags). Both shapes were known-finding classes (F11c, F11d) until the Via modifier learnt to read
+// every field line; they stay frequent regression targets and are only counted now.
+func chainShape(lines []string) string {
 	if len(lines) < 2 {
 		return ""
 	}
@@ -322,7 +324,6 @@ func knownClass(lines []string) string {
 	if ownLater && !strings.Contains(lines[0], phTag) {
 		return "tag-on-later-via-line"
 	}
-	// several Via lines: the lines after the first are dropped (C01's F11a seen from C18)
 	return "multi-line-via"
 }
 
@@ -336,14 +337,14 @@ func (e *env) runChain(ctx *core.Ctx, cc *chainCase) {
 	e.mu.Lock()
 	defer e.mu.Unlock()
 	linesPH := viaLinesOf(cc.Request.Fields)
-	class := knownClass(linesPH)
+	shape := chainShape(linesPH)
 	req := instantiate(cc.Request, e.cfg.Tag)
 	lines := viaLinesOf(req.Fields)
 	if nominatesVia(req.Fields) {
 		// `Connection: via` makes the client's Via a hop-by-hop field: it is removed before this
 		// instance adds its own element, so the chain this instance sees is empty
 		lines = nil
-		class = ""
+		shape = ""
 		ctx.Count("via-nominated-by-connection")
 	}
 	id := idOf(req)
@@ -366,8 +367,8 @@ func (e *env) runChain(ctx *core.Ctx, cc *chainCase) {
 		nel = len(core.SplitList(a))
 	}
 	ctx.Count(fmt.Sprintf("via-elements/%d", nel))
-	if class != "" {
-		ctx.Count("class/" + class)
+	if shape != "" {
+		ctx.Count("shape/" + shape)
 	}
 
 	before := e.contacts()
@@ -419,11 +420,7 @@ func (e *env) runChain(ctx *core.Ctx, cc *chainCase) {
 	var modelKind string // "loop" | "fwd" | "other"
 	var modelVia []string
 	if cc.Connect {
-		first := "~"
-		if len(lines) > 0 {
-			first = core.HexS(lines[0])
-		}
-		a := strings.Fields(ask(ctx, "step", core.HexS(e.cfg.Tag), core.Itoa(minor), first))
+		a := strings.Fields(ask(ctx, "step", core.HexS(e.cfg.Tag), core.Itoa(minor), hexLines(lines)))
 		if a[0] == "loop" {
 			modelKind = "loop"
 		} else {
@@ -512,11 +509,7 @@ func (e *env) runChain(ctx *core.Ctx, cc *chainCase) {
 	}
 	if verdict != "true" {
 		clause := strings.TrimPrefix(verdict, "false ")
-		k := class
-		if (clause == "loop-not-refused" && class != "tag-on-later-via-line") || (clause == "element-not-appended" && class != "multi-line-via") || clause == "foreign-chain-refused" {
-			k = ""
-		}
-		ctx.SpecFail(clause, k, cc, impl, fmt.Sprintf("chain class %s, Via lines sent %q", cls, lines))
+		ctx.SpecFail(clause, "", cc, impl, fmt.Sprintf("chain class %s, Via lines sent %q", cls, lines))
 	}
 }
 
